@@ -411,6 +411,8 @@ def run(S, F, paths, asg, tabs=None, want_path=False):
                 v = memo[k_]
             else:
                 v = memo[k_] = ev(S, F, d, asg, tabs)
+            if not isinstance(v, int):
+                raise Unknown("branch on a value that is not known: %s" % sym.fmt(n(d))[:80])
             ok = (v not in vals) if taken == "otherwise" else (v == taken)
             if not ok:
                 break
